@@ -24,6 +24,8 @@ ASSUMPTIONS = [
 ]
 SHARDS = {"quick": 2, "thorough": 16}
 MIN_REACH = {
+    "batches_under_a_changed_decimal_context": {"quick": 2, "thorough": 200},
+    "batches_with_numpy_scalar_arguments": {"quick": 2, "thorough": 200},
     "contract_evals_in_domain": {"quick": 15000, "thorough": 1500000},
     "via_repr_or_estimate": {"quick": 50, "thorough": 500},
 }
@@ -139,9 +141,29 @@ def run_case(ctx, case):
         pairs = _pairs(ctx.rng("batch", case["batch"], case["gen"]), case["gen"], case["n"])
 
     nviol = 0
+    # the calling program's ambient decimal context (a thread-wide setting a user may have changed for their own sums) and
+    # the numeric type of the arguments (Python / numpy scalars) must not change what is printed
+    import decimal
+    import numpy as np
+    amb = None
+    if case.get("batch") is not None and case["batch"] % 6 == 4:
+        amb = decimal.Context(prec=6) if case["batch"] % 12 == 4 else decimal.Context(prec=28, rounding=decimal.ROUND_DOWN)
+        ctx.count("batches_under_a_changed_decimal_context")
+    as_numpy = case.get("batch") is not None and case["batch"] % 6 == 5
+    if as_numpy:
+        ctx.count("batches_with_numpy_scalar_arguments")
     for x, err in pairs:
         try:
-            fmt(int(x) if case["gen"] == "small_ints" and x.is_integer() else x, err)
+            xa = int(x) if case["gen"] == "small_ints" and x.is_integer() else x
+            ea = err
+            if as_numpy:
+                xa = np.int64(xa) if isinstance(xa, int) and abs(xa) < 2 ** 62 else np.float64(xa)
+                ea = np.float64(err)
+            if amb is not None:
+                with decimal.localcontext(amb):
+                    fmt(xa, ea)
+            else:
+                fmt(xa, ea)
         except Exception as e:
             w = {"gen": "explicit", "pairs": [[x.hex(), err.hex()]], "x": repr(x), "err": repr(err)}
             ctx.violation(w, "format_number_with_error(%r, %r) raised %r" % (x, err, e),
